@@ -3,6 +3,7 @@
 From Coq Require Import ZArith NArith List String.
 From Cloak Require Import Gen.LockGraph Gen.Guards Model.Panel.
 From Cloak Require Import Proofs.LockOrder Proofs.PanelLocks Proofs.PanelWF Proofs.PanelOwn Proofs.PanelRefute.
+From Cloak Require Model.PanelSplit Proofs.PanelSplit.
 Import ListNotations.
 
 (* ---- generated obligations (re-proved on every run about the freshly generated terms) ---- *)
@@ -94,3 +95,56 @@ Theorem C17_ownership_partial : forall c d nw s k, reachable c d nw s ->
       (table s (r_uid (recs s r)) <> Some r /\ ~ owned s \/ r_bypass (recs s r) = true)).
 Proof. exact ownership_partial. Qed.
 Print Assumptions C17_ownership_partial.
+
+(* ---- what holding activeUsersM across GetUser buys (Model/PanelSplit.v) ----
+
+   GetUser split into  lock / lookup / Manager.AuthenticateUser / insert, any number of calls in any
+   interleaving, the user database answering whatever it likes whenever it likes.  With the lock kept
+   from the lookup to the insertion (the code as it is; the generated obligation
+   GetUser_lookup_authenticate_insert_one_step of Proofs/AtomPanel.v says so about the source) every
+   run is a run of the ATOMIC GetUser - step D1 of the hand model - in the order in which the calls
+   released the lock: same table, same number of records (= valves) created, same results. *)
+Theorem C17_getuser_split_refines_atomic : forall thr sched s,
+  PanelSplit.all_start thr -> PanelSplit.grun true (PanelSplit.g_init thr) sched = Some s ->
+  exists tb, PanelSplit.replay_atomic (fun _ => None) 0 (PanelSplit.g_log s) = (tb, PanelSplit.g_nrec s, true)
+             /\ forall u, tb u = PanelSplit.g_table s u.
+Proof. exact PanelSplit.split_refines_atomic. Qed.
+Print Assumptions C17_getuser_split_refines_atomic.
+
+(* hence: two calls for one UID that returned a record returned THE SAME record, the one the panel
+   holds (one record, one valve per UID: also what C19 needs) *)
+Theorem C17_one_record_per_uid : forall thr sched s t1 t2 u r1 r2,
+  PanelSplit.all_start thr -> PanelSplit.grun true (PanelSplit.g_init thr) sched = Some s ->
+  PanelSplit.gget s t1 = PanelSplit.GDone u (Some r1) -> PanelSplit.gget s t2 = PanelSplit.GDone u (Some r2) ->
+  r1 = r2 /\ PanelSplit.g_table s u = Some r1.
+Proof. exact PanelSplit.split_one_record. Qed.
+Print Assumptions C17_one_record_per_uid.
+
+(* and a caller that arrives while another is between its lookup and its insertion cannot move: what
+   the harness observes as "waiting for a lock until the first is released" *)
+Theorem C17_second_caller_waits : forall thr sched s t t' u ok,
+  PanelSplit.all_start thr -> PanelSplit.grun true (PanelSplit.g_init thr) sched = Some s ->
+  PanelSplit.holder (PanelSplit.gget s t) = true -> PanelSplit.gget s t' = PanelSplit.GStart u ->
+  PanelSplit.gstep true s t' ok = None.
+Proof. exact PanelSplit.split_second_caller_blocked. Qed.
+Print Assumptions C17_second_caller_waits.
+
+(* the hypotheses are met: a second caller arrives while the first is inside AuthenticateUser *)
+Example C17_getuser_split_inhabited :
+  exists s, PanelSplit.grun true (PanelSplit.g_init [PanelSplit.GStart 1%N; PanelSplit.GStart 1%N]) PanelSplit.held_schedule = Some s
+  /\ PanelSplit.gget s 0 = PanelSplit.GDone 1%N (Some 0) /\ PanelSplit.gget s 1 = PanelSplit.GDone 1%N (Some 0)
+  /\ PanelSplit.g_nrec s = 1.
+Proof. exact PanelSplit.split_held_example. Qed.
+
+(* WITHOUT the lock across the three steps (lookup under the lock, query unlocked, insertion under a
+   second acquisition: the seeded changes C17_m2 / C19_m2) both first connections of user 1 look the
+   UID up before either inserts: two records, two valves, caller 0 holds a record the panel has
+   overwritten, and no order of atomic calls explains the results.  The overlapped scenarios of the
+   correspondence (D1.1a D1.2ah g0 g1 g1) are this schedule on the real code. *)
+Theorem C17_getuser_unlocked_refuted :
+  exists s, PanelSplit.grun false (PanelSplit.g_init [PanelSplit.GStart 1%N; PanelSplit.GStart 1%N]) PanelSplit.unlocked_schedule = Some s
+  /\ PanelSplit.gget s 0 = PanelSplit.GDone 1%N (Some 0) /\ PanelSplit.gget s 1 = PanelSplit.GDone 1%N (Some 1)
+  /\ PanelSplit.g_table s 1%N = Some 1 /\ PanelSplit.g_nrec s = 2
+  /\ (let '(_, _, good) := PanelSplit.replay_atomic (fun _ => None) 0 (PanelSplit.g_log s) in good) = false.
+Proof. exact PanelSplit.split_unlocked_two_records. Qed.
+Print Assumptions C17_getuser_unlocked_refuted.
